@@ -380,7 +380,8 @@ def judge_spec(spec, impl):
     if spec.startswith("prefix "):
         return impl.startswith(spec[7:])
     if spec.startswith("oneof "):
-        return impl in spec[6:].split(" || ")
+        # an alternative ending in `*` is a prefix
+        return any(impl == alt or (alt.endswith("*") and impl.startswith(alt[:-1])) for alt in spec[6:].split(" || "))
     if spec.startswith("m "):
         want = spec[2:].split(" ")
         got = impl.split(" ")
